@@ -231,4 +231,40 @@ Section Straight.
     destruct (instance_of f c) as [inst|e]; [|reflexivity]. simpl.
     destruct (assert_uses_kwargs pc f c); reflexivity.
   Qed.
+
+  (* ---- run_gen (generator functions), straight-line ---- *)
+  Definition run_gen_ref (f : fn) (c : call) : outcome genobj * list jentry :=
+    match instance_of f c with
+    | Raise e => (Raise e, [])
+    | Ok inst =>
+        match assert_uses_kwargs pc f c with
+        | Raise e => (Raise e, [])
+        | Ok _ =>
+            match args_phase pc check consumes f c inst (astate0) with
+            | Raise e => (Raise e, [])
+            | Ok st =>
+                match invoke_gen f (call_pos pc f c) c (a_cons st) with
+                | (Raise e, j) => (Raise e, j)
+                | (Ok g, j) => (ret_gen pc f c inst st g, j)
+                end
+            end
+        end
+    end.
+
+  Lemma run_gen_is_ref : forall f c, run_gen pc check consumes f c = run_gen_ref f c.
+  Proof.
+    intros f c. unfold run_gen, run_gen_ref, wrapper_run, pedantic_wrapper.
+    rewrite (gf_wrap pc G), (gf_awrap pc G).
+    destruct (instance_of f c) as [inst|e]; [|reflexivity].
+    assert (E : (if f_coroutine f then [WAssertKwargs; WCheckTypes] else [WAssertKwargs; WCheckTypes]) = [WAssertKwargs; WCheckTypes])
+      by (destruct (f_coroutine f); reflexivity).
+    rewrite E. simpl.
+    destruct (assert_uses_kwargs pc f c) as [u|e]; [|reflexivity].
+    unfold check_types_gen, check_steps. rewrite (gf_steps pc G), (gf_asteps pc G).
+    assert (E2 : (if f_coroutine f then [StArgs; StCall; StRetCheck] else [StArgs; StCall; StRetCheck]) = [StArgs; StCall; StRetCheck])
+      by (destruct (f_coroutine f); reflexivity).
+    rewrite E2. simpl.
+    destruct (args_phase pc check consumes f c inst astate0) as [st|e]; [|reflexivity].
+    destruct (invoke_gen f (call_pos pc f c) c (a_cons st)) as [[v|e] j]; reflexivity.
+  Qed.
 End Straight.
